@@ -1,6 +1,817 @@
-//! C16 — stub (not built yet).
+//! C16 — servers answer each request once, correctly framed and within the
+//! size limit.
+//!
+//! In-process: `DgramServer` over a mock `AsyncDgramSock` that records every
+//! `send_to`, `StreamServer` over a mock `AsyncAccept` that hands out
+//! `tokio::io::duplex` streams, the documented middleware stack
+//! `MandatoryMiddlewareSvc(EdnsMiddlewareSvc(CookiesMiddlewareSvc(service)))`
+//! and a harness service whose behaviour (single / streamed / slow / failing
+//! / silent, answer size and shape) is looked up by request ID and which logs
+//! everything it produces. Virtual time (paused tokio clock).
+mod model;
+mod net;
+mod oracle;
+mod svc;
+
 use crate::engine::*;
+use crate::refimpl::wire;
+use crate::{vensure, vfail};
+use arbitrary::Unstructured;
+use domain::net::server::buf::VecBufSource;
+use domain::net::server::dgram::{self, DgramServer};
+use domain::net::server::middleware::cookies::CookiesMiddlewareSvc;
+use domain::net::server::middleware::edns::EdnsMiddlewareSvc;
+use domain::net::server::middleware::mandatory::MandatoryMiddlewareSvc;
+use domain::net::server::stream::{self, StreamServer};
+use domain::net::server::ConnectionConfig;
+use model::*;
+use oracle::{Fit, ReqView};
+use std::collections::{BTreeMap, BTreeSet};
+use std::net::SocketAddr;
+use std::sync::{Arc, Mutex};
+use std::time::Duration;
+use svc::{Call, Kind, Plan, PlanSvc, Produced, Shared};
+use tokio::io::{AsyncReadExt, AsyncWriteExt};
+
+type Stack = MandatoryMiddlewareSvc<Vec<u8>, EdnsMiddlewareSvc<Vec<u8>, CookiesMiddlewareSvc<Vec<u8>, PlanSvc, ()>, ()>, ()>;
+
+fn stack(shared: Arc<Mutex<Shared>>, cookies: bool) -> Stack {
+    let svc = PlanSvc { shared };
+    let svc = CookiesMiddlewareSvc::<Vec<u8>, _, ()>::new(svc, [7u8; 16]).enable(cookies);
+    let svc = EdnsMiddlewareSvc::<Vec<u8>, _, ()>::new(svc);
+    MandatoryMiddlewareSvc::<Vec<u8>, _, ()>::new(svc)
+}
+
+/// UDP receive buffer of `VecBufSource::create_buf`.
+const UDP_BUF: usize = 1024;
+
+//------------ running a UDP case ------------------------------------------------
+
+struct UdpObs {
+    sent: Vec<(SocketAddr, Vec<u8>)>,
+    calls: Vec<Call>,
+    alive: bool,
+    received: usize,
+}
+
+fn run_udp(case: &UdpCase) -> UdpObs {
+    let shared = Arc::new(Mutex::new(Shared::default()));
+    let mut settle = 0u64;
+    for it in &case.items {
+        if let What::Wf { req, plan, .. } = &it.what {
+            shared.lock().unwrap().plans.insert(req.id, plan.clone());
+            settle = settle.max(plan.total_ms());
+        }
+    }
+    let sh = shared.clone();
+    block_on_paused(async move {
+        let mut cfg = dgram::Config::new();
+        cfg.set_max_response_size(case.cfg);
+        let srv = Arc::new(DgramServer::with_config(net::MockSock::default(), VecBufSource, stack(sh.clone(), case.cookies), cfg));
+        let sock = srv.source();
+        let h = tokio::spawn({
+            let s = srv.clone();
+            async move { s.run().await }
+        });
+        for it in &case.items {
+            if it.gap_ms > 0 {
+                tokio::time::sleep(Duration::from_millis(it.gap_ms as u64)).await;
+            }
+            let bytes = match &it.what {
+                What::Wf { req, .. } => req.bytes(),
+                What::Hostile { bytes, .. } => bytes.clone(),
+            };
+            sock.deliver(bytes, it.addr);
+        }
+        tokio::time::sleep(Duration::from_millis(settle + 2000)).await;
+        let alive = !h.is_finished();
+        let sent = sock.sent.lock().unwrap().clone();
+        let received = *sock.received.lock().unwrap();
+        let _ = srv.shutdown();
+        let calls = sh.lock().unwrap().calls.clone();
+        UdpObs { sent, calls, alive, received }
+    })
+}
+
+fn fit_class(ctx: &mut Ctx, t: &str, fit: Option<Fit>, edns: bool) {
+    match fit {
+        Some(Fit::Exactly) => ctx.class(format!("{t}:fits-exactly")),
+        Some(Fit::MinusOne) => ctx.class(format!("{t}:limit-1")),
+        Some(Fit::PlusOne) => {
+            ctx.class(format!("{t}:limit+1"));
+            ctx.class(format!("{t}:truncated"));
+        }
+        Some(Fit::Over) => ctx.class(format!("{t}:truncated")),
+        Some(Fit::Fits) => ctx.class(format!("{t}:fits")),
+        None => {}
+    }
+    if matches!(fit, Some(Fit::Over | Fit::PlusOne)) && !edns {
+        ctx.class(format!("{t}:no-edns-truncated"));
+    }
+}
+
+/// What the server saw of a hostile datagram / message.
+fn hostile_view(what: String, seen: &[u8], cfg: Option<u16>, tcp: bool) -> ReqView {
+    let id = if seen.len() >= 12 { Some(u16::from_be_bytes([seen[0], seen[1]])) } else { None };
+    let w = wire::walk(seen);
+    let clean = matches!(&w, Some(w) if w.error.is_none());
+    let mut question = None;
+    let mut has_opt = false;
+    // A datagram in which no OPT record can be found (because it can not
+    // even be walked) does not advertise EDNS: 512.
+    let mut limit = if tcp { None } else { Some(512) };
+    if let (true, Some(w)) = (clean, &w) {
+        if w.questions.len() == 1 {
+            let q = &w.questions[0];
+            question = Some((q.name.clone(), q.qtype, q.qclass));
+        }
+        let opt = w.records.iter().find(|r| r.section == 3 && r.rtype == oracle::OPT);
+        has_opt = opt.is_some();
+        if !tcp {
+            limit = Some(udp_limit(opt.map(|r| r.class), cfg));
+        }
+    }
+    ReqView { what, id, question, has_opt, limit, no_edns_hint: cfg.map(|c| c as usize), tcp }
+}
+
+fn check_udp(case: &UdpCase, obs: &UdpObs, ctx: &mut Ctx) -> CaseResult {
+    vensure!(obs.alive, "udp:server-task-ended", "DgramServer::run returned before shutdown");
+    vensure!(obs.received == case.items.len(), "udp:datagrams-not-consumed", "{} datagrams delivered, the server took {}", case.items.len(), obs.received);
+    let mut by_addr: BTreeMap<SocketAddr, Vec<&[u8]>> = BTreeMap::new();
+    for (a, d) in &obs.sent {
+        by_addr.entry(*a).or_default().push(d);
+    }
+    for a in by_addr.keys() {
+        vensure!(case.items.iter().any(|i| i.addr == *a), "udp:response-to-unknown-address", "a datagram was sent to {a}, nobody sent a request from there");
+    }
+    let empty: Vec<&[u8]> = vec![];
+    for (n, it) in case.items.iter().enumerate() {
+        let w = by_addr.get(&it.addr).unwrap_or(&empty);
+        match &it.what {
+            What::Wf { req, plan, sentinel } => {
+                let edns_sz = req.edns.as_ref().map(|e| e.udp);
+                let rv = ReqView {
+                    what: format!("udp request #{n} [{}] cfg={:?} plan={:?}", req.show(), case.cfg, plan),
+                    id: Some(req.id),
+                    question: Some((req.qname.clone(), req.qtype, req.qclass)),
+                    has_opt: req.edns.is_some(),
+                    limit: Some(udp_limit(edns_sz, case.cfg)),
+                    no_edns_hint: case.cfg.map(|c| c as usize),
+                    tcp: false,
+                };
+                if req.edns.is_none() {
+                    ctx.class("udp:no-edns");
+                } else {
+                    ctx.class(format!("udp:edns-size:{}", match edns_sz.unwrap() { 0..=511 => "<512", 512 => "512", 513..=1231 => "513..1231", 1232 => "1232", 1233..=4095 => "1233..4095", 4096 => "4096", _ => ">4096" }));
+                }
+                let calls: Vec<&Call> = obs.calls.iter().filter(|c| c.id == req.id).collect();
+                vensure!(calls.len() <= 1, "udp:request-dispatched-twice", "{}: the service was called {} times", rv.what, calls.len());
+                let tag = if *sentinel { "udp:sentinel" } else { "udp" };
+                match calls.first() {
+                    None => {
+                        if req.plain(false, case.cookies) {
+                            vfail!(format!("{tag}:request-not-dispatched"), "{}: well-formed request never reached the service; {} responses", rv.what, w.len());
+                        }
+                        ctx.class("udp:answered-by-middleware");
+                        vensure!(w.len() == 1, format!("{tag}:error-response-count"), "{}: {} responses to a request the middleware rejects", rv.what, w.len());
+                        let p = oracle::check_basic(tag, &rv, w[0])?;
+                        let t2 = if case.cookies && req.cookie_malformed() { format!("{tag}:malformed-cookie") } else { format!("{tag}:rejected") };
+                        oracle::check_question(&t2, &rv, &p)?;
+                    }
+                    Some(call) => {
+                        vensure!(call.addr == it.addr && call.udp, "udp:request-context-wrong", "{}: service saw client {} udp={}", rv.what, call.addr, call.udp);
+                        vensure!(call.finished, "harness:service-not-finished", "{}: service still running at the end of the scenario", rv.what);
+                        vensure!(w.len() >= call.produced.len(), format!("{tag}:response-missing"), "{}: service produced {} responses, {} were sent", rv.what, call.produced.len(), w.len());
+                        vensure!(w.len() <= call.produced.len(), format!("{tag}:response-duplicated"), "{}: service produced {} responses, {} were sent", rv.what, call.produced.len(), w.len());
+                        for (wm, p) in w.iter().zip(call.produced.iter()) {
+                            let fit = oracle::check_against(tag, &rv, wm, p)?;
+                            fit_class(ctx, "udp", fit, req.edns.is_some());
+                            if matches!(p, Produced::Err(_)) {
+                                ctx.class("svc:fail");
+                            }
+                        }
+                        match &plan.kind {
+                            Kind::Multi { .. } => ctx.class("svc:multi"),
+                            Kind::Silent => ctx.class("svc:silent"),
+                            _ => {}
+                        }
+                        if plan.delay_ms > 0 {
+                            ctx.class("svc:slow");
+                        }
+                    }
+                }
+                if *sentinel {
+                    ctx.class("udp:sentinel-answered");
+                }
+            }
+            What::Hostile { bytes, tags } => {
+                for t in tags {
+                    ctx.class(format!("hostile:{t}"));
+                }
+                let seen = &bytes[..bytes.len().min(UDP_BUF)];
+                let rv = hostile_view(format!("hostile udp datagram #{n} {:?} [{}] cfg={:?}", tags, oracle::hex(bytes), case.cfg), seen, case.cfg, false);
+                let calls: Vec<&Call> = obs.calls.iter().filter(|c| c.addr == it.addr).collect();
+                vensure!(calls.len() <= 1, "udp:hostile:request-dispatched-twice", "{}: the service was called {} times", rv.what, calls.len());
+                // A datagram shorter than a DNS header has no ID (and no
+                // question) a response could carry; dgram.rs documents that
+                // no response is sent in that case.
+                if bytes.len() < 12 {
+                    ctx.class("hostile:shorter-than-header");
+                    vensure!(w.is_empty() && calls.is_empty(), "udp:hostile:response-to-headerless-datagram", "{}: a datagram of {} octets (no complete header, hence no ID) was answered with {} responses (service called: {}); first: {}", rv.what, bytes.len(), w.len(), !calls.is_empty(), w.first().map(|m| oracle::hex(m)).unwrap_or_default());
+                }
+                match calls.first() {
+                    None => {
+                        vensure!(w.len() <= 1, "udp:hostile:response-duplicated", "{}: {} responses", rv.what, w.len());
+                        if let Some(wm) = w.first() {
+                            let p = oracle::check_basic("udp:hostile", &rv, wm)?;
+                            oracle::check_question("udp:hostile", &rv, &p)?;
+                            ctx.class("hostile:answered-with-error");
+                        } else {
+                            ctx.class("hostile:silence");
+                        }
+                    }
+                    Some(call) => {
+                        ctx.class("hostile:reached-service");
+                        vensure!(call.finished, "harness:service-not-finished", "{}", rv.what);
+                        vensure!(w.len() == call.produced.len(), "udp:hostile:response-count", "{}: service produced {} responses, {} were sent", rv.what, call.produced.len(), w.len());
+                        for (wm, p) in w.iter().zip(call.produced.iter()) {
+                            oracle::check_against("udp:hostile", &rv, wm, p)?;
+                        }
+                    }
+                }
+            }
+        }
+    }
+    Ok(())
+}
+
+fn udp_nontrivial(case: &UdpCase, ctx: &Ctx) -> bool {
+    ctx.classes.iter().any(|c| c == "udp:truncated") || case.items.windows(2).any(|w| matches!(w[0].what, What::Hostile { .. }) && matches!(w[1].what, What::Wf { sentinel: true, .. }))
+}
+
+fn show_udp(case: &UdpCase) -> String {
+    let mut s = format!("UDP cfg={:?} cookies={} ", case.cfg, case.cookies);
+    for it in &case.items {
+        match &it.what {
+            What::Wf { req, plan, sentinel } => s.push_str(&format!("| +{}ms {}{} plan(delay={} {:?} target={:?} opt={}) ", it.gap_ms, if *sentinel { "SENTINEL " } else { "" }, req.show(), plan.delay_ms, plan.kind, plan.shape.target, plan.shape.opt.is_some())),
+            What::Hostile { bytes, tags } => s.push_str(&format!("| +{}ms HOSTILE{:?} {} octets ", it.gap_ms, tags, bytes.len())),
+        }
+    }
+    s
+}
+
+fn run_dgram(data: &[u8], ctx: &mut Ctx) -> CaseResult {
+    let mut u = Unstructured::new(data);
+    let case = udp_case(&mut u);
+    ctx.sample(|| show_udp(&case));
+    let obs = run_udp(&case);
+    let r = check_udp(&case, &obs, ctx);
+    if udp_nontrivial(&case, ctx) {
+        ctx.nontrivial(&format!("{case:?}"));
+    }
+    r
+}
+
+/// Raw-bytes entry (also the libFuzzer target `c16_dgram`): data[0] selects
+/// the server options, the rest is one datagram; a sentinel follows.
+fn run_dgram_raw(data: &[u8], ctx: &mut Ctx) -> CaseResult {
+    let opt = data.first().copied().unwrap_or(0);
+    let dgram = if data.is_empty() { vec![] } else { data[1..].to_vec() };
+    let cookies = opt & 1 == 1;
+    let cfg = CFGS[((opt >> 1) & 7) as usize];
+    let mut sid = 0x0101u16;
+    if dgram.len() >= 2 && dgram[0] == 1 && dgram[1] == 1 {
+        sid = 0x0202;
+    }
+    let a1 = SocketAddr::from(([192, 0, 2, 1], 10000));
+    let a2 = SocketAddr::from(([192, 0, 2, 2], 10001));
+    let tag: &'static str = match wire::walk(&dgram[..dgram.len().min(UDP_BUF)]) {
+        None => "raw-short",
+        Some(w) if w.error.is_some() => "raw-broken",
+        Some(w) if w.header.qr() => "raw-clean-qr",
+        Some(w) if w.header.opcode() != 0 => "raw-clean-opcode",
+        Some(w) if w.questions.len() != 1 => "raw-clean-qdcount",
+        Some(_) => "raw-clean-query",
+    };
+    let case = UdpCase {
+        cookies,
+        cfg,
+        items: vec![
+            UItem { gap_ms: 0, addr: a1, what: What::Hostile { bytes: dgram, tags: vec![tag] } },
+            UItem { gap_ms: (opt >> 4 & 1) as u32, addr: a2, what: What::Wf { req: sentinel(sid, opt & 0x20 != 0), plan: Plan::default(), sentinel: true } },
+        ],
+    };
+    ctx.sample(|| show_udp(&case));
+    let obs = run_udp(&case);
+    let r = check_udp(&case, &obs, ctx);
+    ctx.nontrivial(&format!("{case:?}"));
+    r
+}
+
+//------------ running a TCP case ------------------------------------------------
+
+struct ConnObs {
+    bytes: Vec<u8>,
+    eof: bool,
+}
+
+struct TcpObs {
+    conns: Vec<ConnObs>,
+    calls: Vec<Call>,
+    alive: bool,
+}
+
+fn frame_of(w: &TWhat) -> Option<Vec<u8>> {
+    match w {
+        TWhat::Wf { req, .. } => {
+            let m = req.bytes();
+            let mut f = (m.len() as u16).to_be_bytes().to_vec();
+            f.extend_from_slice(&m);
+            Some(f)
+        }
+        TWhat::Hostile { frame, .. } => Some(frame.clone()),
+        _ => None,
+    }
+}
+
+fn run_tcp(case: &TcpCase) -> TcpObs {
+    let shared = Arc::new(Mutex::new(Shared::default()));
+    let mut settle = 0u64;
+    for c in &case.conns {
+        for it in &c.items {
+            if let TWhat::Wf { req, plan, .. } = &it.what {
+                shared.lock().unwrap().plans.insert(req.id, plan.clone());
+                settle = settle.max(plan.total_ms());
+            }
+        }
+    }
+    let sh = shared.clone();
+    block_on_paused(async move {
+        let (listener, tx) = net::MockListener::new();
+        let mut cc = ConnectionConfig::new();
+        cc.set_idle_timeout(Duration::from_millis(case.idle_ms));
+        cc.set_max_queued_responses(case.max_queued);
+        let mut cfg = stream::Config::new();
+        cfg.set_connection_config(cc);
+        let srv = Arc::new(StreamServer::with_config(listener, VecBufSource, stack(sh.clone(), case.cookies), cfg));
+        let h = tokio::spawn({
+            let s = srv.clone();
+            async move { s.run().await }
+        });
+        let mut clients = vec![];
+        let mut bufs = vec![];
+        for c in &case.conns {
+            let buf = Arc::new(Mutex::new((Vec::<u8>::new(), false)));
+            bufs.push(buf.clone());
+            let tx = tx.clone();
+            let c = c.clone();
+            let cap = case.cap;
+            clients.push(tokio::spawn(async move {
+                if c.start_ms > 0 {
+                    tokio::time::sleep(Duration::from_millis(c.start_ms as u64)).await;
+                }
+                let (client, server) = tokio::io::duplex(cap);
+                let _ = tx.send((server, c.addr));
+                let (mut rd, mut wr) = tokio::io::split(client);
+                let reader = tokio::spawn(async move {
+                    let mut tmp = vec![0u8; 8192];
+                    loop {
+                        match rd.read(&mut tmp).await {
+                            Ok(0) | Err(_) => {
+                                buf.lock().unwrap().1 = true;
+                                break;
+                            }
+                            Ok(n) => buf.lock().unwrap().0.extend_from_slice(&tmp[..n]),
+                        }
+                    }
+                });
+                for it in &c.items {
+                    if it.gap_ms > 0 {
+                        tokio::time::sleep(Duration::from_millis(it.gap_ms as u64)).await;
+                    }
+                    match &it.what {
+                        TWhat::Abort => {
+                            reader.abort();
+                            let _ = reader.await;
+                            return None;
+                        }
+                        TWhat::HalfClose => {
+                            let _ = wr.shutdown().await;
+                        }
+                        w => {
+                            let f = frame_of(w).unwrap();
+                            let mut pos = 0;
+                            for &s in it.splits.iter().chain(std::iter::once(&f.len())) {
+                                let s = s.min(f.len());
+                                if s > pos {
+                                    if wr.write_all(&f[pos..s]).await.is_err() {
+                                        break;
+                                    }
+                                    pos = s;
+                                    // between the chunks of a split write the server gets to run;
+                                    // after a complete item it does not, so that items with gap 0
+                                    // arrive as one burst (as far as the stream's capacity allows)
+                                    if pos < f.len() {
+                                        if it.chunk_gap_ms > 0 {
+                                            tokio::time::sleep(Duration::from_millis(it.chunk_gap_ms as u64)).await;
+                                        } else {
+                                            tokio::task::yield_now().await;
+                                        }
+                                    }
+                                }
+                            }
+                        }
+                    }
+                }
+                // keep the connection open until the scenario ends
+                Some((wr, reader))
+            }));
+        }
+        let mut keep = vec![];
+        for c in clients {
+            keep.push(c.await.ok().flatten());
+        }
+        tokio::time::sleep(Duration::from_millis(settle + 2000)).await;
+        let alive = !h.is_finished();
+        let conns = bufs
+            .iter()
+            .map(|b| {
+                let g = b.lock().unwrap();
+                ConnObs { bytes: g.0.clone(), eof: g.1 }
+            })
+            .collect();
+        let _ = srv.shutdown();
+        drop(keep);
+        let calls = sh.lock().unwrap().calls.clone();
+        TcpObs { conns, calls, alive }
+    })
+}
+
+fn split_frames(b: &[u8]) -> (Vec<&[u8]>, &[u8]) {
+    let mut out = vec![];
+    let mut pos = 0;
+    while pos + 2 <= b.len() {
+        let l = u16::from_be_bytes([b[pos], b[pos + 1]]) as usize;
+        if pos + 2 + l > b.len() {
+            break;
+        }
+        out.push(&b[pos + 2..pos + 2 + l]);
+        pos += 2 + l;
+    }
+    (out, &b[pos..])
+}
+
+/// Compares the responses seen for one request with what the service
+/// produced. `lenient`: the connection was damaged by the client, responses
+/// may be missing (but never wrong, duplicated or out of order).
+fn match_responses(t: &str, rv: &ReqView, w: &[&[u8]], produced: &[Produced], lenient: bool, missing_sig: &str) -> CaseResult {
+    if !lenient {
+        vensure!(w.len() >= produced.len(), missing_sig.to_string(), "{}: service produced {} responses, {} arrived", rv.what, produced.len(), w.len());
+    }
+    vensure!(w.len() <= produced.len(), format!("{t}:response-duplicated"), "{}: service produced {} responses, {} arrived", rv.what, produced.len(), w.len());
+    let mut j = 0;
+    for wm in w {
+        let mut first_err = None;
+        let mut ok = false;
+        while j < produced.len() {
+            match oracle::check_against(t, rv, wm, &produced[j]) {
+                Ok(_) => {
+                    ok = true;
+                    j += 1;
+                    break;
+                }
+                Err(e) => {
+                    if first_err.is_none() {
+                        first_err = Some(e);
+                    }
+                    if !lenient {
+                        break;
+                    }
+                    j += 1;
+                }
+            }
+        }
+        if !ok {
+            return Err(first_err.unwrap_or_else(|| Violation::new(format!("{t}:response-duplicated"), format!("{}: more responses than the service produced", rv.what))));
+        }
+    }
+    Ok(())
+}
+
+fn check_tcp(case: &TcpCase, obs: &TcpObs, ctx: &mut Ctx) -> CaseResult {
+    vensure!(obs.alive, "tcp:server-task-ended", "StreamServer::run returned before shutdown");
+    let empty: Vec<&[u8]> = vec![];
+    for (ci, conn) in case.conns.iter().enumerate() {
+        let o = &obs.conns[ci];
+        let doomed = conn.items.iter().any(|i| matches!(i.what, TWhat::Abort | TWhat::HalfClose | TWhat::Hostile { doomed: true, .. }));
+        let aborted = conn.items.iter().any(|i| matches!(i.what, TWhat::Abort));
+        let (frames, rest) = split_frames(&o.bytes);
+        if !aborted {
+            vensure!(rest.is_empty(), "tcp:partial-frame", "connection {ci}: the stream ends with {} octets that are not a complete length-prefixed message: {}", rest.len(), oracle::hex(rest));
+        }
+        let mut by_id: BTreeMap<u16, Vec<&[u8]>> = BTreeMap::new();
+        let mut order: Vec<u16> = vec![];
+        for f in &frames {
+            vensure!(f.len() >= 12, "tcp:malformed-response", "connection {ci}: frame of {} octets: {}", f.len(), oracle::hex(f));
+            let id = u16::from_be_bytes([f[0], f[1]]);
+            if !order.contains(&id) {
+                order.push(id);
+            }
+            by_id.entry(id).or_default().push(f);
+        }
+        let mut known: BTreeSet<u16> = BTreeSet::new();
+        let mut wf_order = vec![];
+        for it in &conn.items {
+            match &it.what {
+                TWhat::Wf { req, .. } => {
+                    known.insert(req.id);
+                    wf_order.push(req.id);
+                }
+                TWhat::Hostile { id: Some(id), .. } => {
+                    known.insert(*id);
+                }
+                _ => {}
+            }
+        }
+        for (id, fs) in &by_id {
+            vensure!(known.contains(id), "tcp:unexpected-response", "connection {ci}: {} responses with ID {id:#06x}, which no request on this connection had (requests: {:04x?}); first: {}", fs.len(), known, oracle::hex(fs[0]));
+        }
+        // responses expected on this connection, for the classification of
+        // a missing one
+        // (a request answered by a middleware or the transport itself also
+        // takes a place in the queue)
+        let expected_total: usize = conn
+            .items
+            .iter()
+            .map(|i| {
+                let id = match &i.what {
+                    TWhat::Wf { req, .. } => Some(req.id),
+                    TWhat::Hostile { id, doomed: false, .. } => *id,
+                    _ => None,
+                };
+                match id {
+                    Some(id) => obs.calls.iter().find(|c| c.id == id).map(|c| c.produced.len()).unwrap_or(1),
+                    None => 0,
+                }
+            })
+            .sum();
+        let slow = conn.items.iter().any(|i| matches!(&i.what, TWhat::Wf { plan, .. } if plan.total_ms() >= case.idle_ms));
+        let missing_sig = if expected_total > case.max_queued {
+            ctx.class("tcp:more-responses-than-queue");
+            "tcp:response-missing:more-responses-than-queue"
+        } else if slow {
+            "tcp:response-missing:service-slower-than-idle-timeout"
+        } else {
+            "tcp:response-missing"
+        };
+        if slow {
+            ctx.class("tcp:service-slower-than-idle-timeout");
+        }
+        let got_order: Vec<u16> = order.iter().copied().filter(|i| wf_order.contains(i)).collect();
+        let want_order: Vec<u16> = wf_order.iter().copied().filter(|i| got_order.contains(i)).collect();
+        if got_order != want_order {
+            ctx.class("tcp:out-of-order");
+        }
+        if conn.items.len() >= 2 && conn.items[1..].iter().any(|i| i.gap_ms == 0) {
+            ctx.class("tcp:pipelined");
+        }
+        for (n, it) in conn.items.iter().enumerate() {
+            if !it.splits.is_empty() {
+                ctx.class("tcp:split-write");
+            }
+            match &it.what {
+                TWhat::Abort => ctx.class("tcp:abort"),
+                TWhat::HalfClose => ctx.class("tcp:half-close"),
+                TWhat::Wf { req, plan, sentinel } => {
+                    let w = by_id.get(&req.id).unwrap_or(&empty);
+                    let rv = ReqView {
+                        what: format!("tcp connection {ci} request #{n} [{}] idle={}ms queue={} cap={} plan={:?}", req.show(), case.idle_ms, case.max_queued, case.cap, plan),
+                        id: Some(req.id),
+                        question: Some((req.qname.clone(), req.qtype, req.qclass)),
+                        has_opt: req.edns.is_some(),
+                        limit: None,
+                        no_edns_hint: None,
+                        tcp: true,
+                    };
+                    let tag = if *sentinel { "tcp:sentinel" } else { "tcp" };
+                    let calls: Vec<&Call> = obs.calls.iter().filter(|c| c.id == req.id).collect();
+                    vensure!(calls.len() <= 1, "tcp:request-dispatched-twice", "{}: the service was called {} times", rv.what, calls.len());
+                    match calls.first() {
+                        None => {
+                            if doomed {
+                                vensure!(w.len() <= 1, format!("{tag}:response-duplicated"), "{}: {} responses", rv.what, w.len());
+                            } else {
+                                if req.plain(true, case.cookies) {
+                                    vfail!(format!("{tag}:request-not-dispatched"), "{}: well-formed request never reached the service; {} responses", rv.what, w.len());
+                                }
+                                ctx.class("tcp:answered-by-middleware");
+                                vensure!(w.len() <= 1, format!("{tag}:response-duplicated"), "{}: {} responses to a request the middleware rejects", rv.what, w.len());
+                                if w.is_empty() {
+                                    let sig = if *sentinel { format!("tcp:sentinel:{}", &missing_sig[4..]) } else { missing_sig.to_string() };
+                                    ctx.report(Violation::new(sig, format!("{}: no response to a request the middleware rejects", rv.what)))?;
+                                }
+                            }
+                            if let Some(wm) = w.first() {
+                                let p = oracle::check_basic(tag, &rv, wm)?;
+                                let t2 = if case.cookies && req.cookie_malformed() { format!("{tag}:malformed-cookie") } else { format!("{tag}:rejected") };
+                                oracle::check_question(&t2, &rv, &p)?;
+                            }
+                        }
+                        Some(call) => {
+                            vensure!(call.addr == conn.addr && !call.udp, "tcp:request-context-wrong", "{}: service saw client {} udp={}", rv.what, call.addr, call.udp);
+                            if !doomed {
+                                vensure!(call.finished, "harness:service-not-finished", "{}: service still running at the end of the scenario", rv.what);
+                            }
+                            let sig = if *sentinel { format!("tcp:sentinel:{}", &missing_sig[4..]) } else { missing_sig.to_string() };
+                            let mut lenient = doomed;
+                            if !doomed && w.len() < call.produced.len() {
+                                // tolerated only if it is a known finding; the rest of the scenario is still checked
+                                ctx.report(Violation::new(sig.clone(), format!("{}: service produced {} responses, {} arrived", rv.what, call.produced.len(), w.len())))?;
+                                lenient = true;
+                            }
+                            match_responses(tag, &rv, w, &call.produced, lenient, &sig)?;
+                            match &plan.kind {
+                                Kind::Multi { transaction, .. } => ctx.class(if *transaction { "svc:multi-transaction" } else { "svc:multi" }),
+                                Kind::Silent => ctx.class("svc:silent"),
+                                Kind::Fail { .. } => ctx.class("svc:fail"),
+                                _ => {}
+                            }
+                            if plan.delay_ms > 0 {
+                                ctx.class("svc:slow");
+                            }
+                            if call.produced.iter().any(|p| matches!(p, Produced::Resp(b) if b.len() > 16000)) {
+                                ctx.class("tcp:big-response");
+                            }
+                        }
+                    }
+                    if *sentinel && !w.is_empty() {
+                        ctx.class("tcp:sentinel-answered");
+                    }
+                }
+                TWhat::Hostile { frame, id, tags, doomed: d } => {
+                    for t in tags {
+                        ctx.class(format!("hostile:{t}"));
+                    }
+                    if *d {
+                        ctx.class("hostile:kills-connection");
+                    }
+                    let Some(id) = id else { continue };
+                    let w = by_id.get(id).unwrap_or(&empty);
+                    let l = (u16::from_be_bytes([frame[0], frame[1]]) as usize).min(frame.len() - 2);
+                    let rv = hostile_view(format!("hostile tcp message #{n} on connection {ci} {:?} [{}]", tags, oracle::hex(frame)), &frame[2..2 + l], None, true);
+                    let calls: Vec<&Call> = obs.calls.iter().filter(|c| c.id == *id).collect();
+                    vensure!(calls.len() <= 1, "tcp:hostile:request-dispatched-twice", "{}", rv.what);
+                    match calls.first() {
+                        None => {
+                            vensure!(w.len() <= 1, "tcp:hostile:response-duplicated", "{}: {} responses", rv.what, w.len());
+                            if let Some(wm) = w.first() {
+                                let p = oracle::check_basic("tcp:hostile", &rv, wm)?;
+                                oracle::check_question("tcp:hostile", &rv, &p)?;
+                                ctx.class("hostile:answered-with-error");
+                            }
+                        }
+                        Some(call) => {
+                            ctx.class("hostile:reached-service");
+                            let sig = format!("tcp:hostile:{}", &missing_sig[4..]);
+                            match_responses("tcp:hostile", &rv, w, &call.produced, doomed, &sig)?;
+                        }
+                    }
+                }
+            }
+        }
+        let _ = o.eof;
+    }
+    Ok(())
+}
+
+fn tcp_nontrivial(case: &TcpCase, ctx: &Ctx) -> bool {
+    ctx.classes.iter().any(|c| c == "tcp:out-of-order") || case.conns.iter().any(|c| c.items.iter().any(|i| matches!(i.what, TWhat::Hostile { .. })))
+}
+
+fn show_tcp(case: &TcpCase) -> String {
+    let mut s = format!("TCP idle={}ms queue={} cap={} cookies={} ", case.idle_ms, case.max_queued, case.cap, case.cookies);
+    for (ci, c) in case.conns.iter().enumerate() {
+        s.push_str(&format!("|| conn{ci}@{}ms ", c.start_ms));
+        for it in &c.items {
+            match &it.what {
+                TWhat::Wf { req, plan, sentinel } => s.push_str(&format!("| +{}ms {}{} split={:?} plan(delay={} {:?} target={:?}) ", it.gap_ms, if *sentinel { "SENTINEL " } else { "" }, req.show(), it.splits, plan.delay_ms, plan.kind, plan.shape.target)),
+                TWhat::Hostile { frame, tags, doomed, .. } => s.push_str(&format!("| +{}ms HOSTILE{:?} {} octets doomed={} ", it.gap_ms, tags, frame.len(), doomed)),
+                TWhat::Abort => s.push_str("| ABORT "),
+                TWhat::HalfClose => s.push_str("| HALFCLOSE "),
+            }
+        }
+    }
+    s
+}
+
+fn run_stream(data: &[u8], ctx: &mut Ctx) -> CaseResult {
+    let mut u = Unstructured::new(data);
+    let case = tcp_case(&mut u);
+    ctx.sample(|| show_tcp(&case));
+    let obs = run_tcp(&case);
+    let r = check_tcp(&case, &obs, ctx);
+    if tcp_nontrivial(&case, ctx) {
+        ctx.nontrivial(&fnv(&format!("{case:?}")));
+    }
+    r
+}
+
+fn health(c: &BTreeMap<String, u64>, _thorough: bool) -> Result<(), String> {
+    for k in [
+        "udp:truncated",
+        "udp:fits-exactly",
+        "udp:limit+1",
+        "udp:limit-1",
+        "udp:no-edns",
+        "udp:no-edns-truncated",
+        "udp:sentinel-answered",
+        "tcp:sentinel-answered",
+        "tcp:out-of-order",
+        "tcp:pipelined",
+        "tcp:split-write",
+        "tcp:abort",
+        "tcp:half-close",
+        "hostile:kills-connection",
+        "hostile:len-prefix-0",
+        "hostile:len-prefix-1",
+        "hostile:len-prefix-too-long",
+        "hostile:len-prefix-65535",
+        "hostile:qr-set",
+        "hostile:pointer-loop",
+        "hostile:qdcount-0",
+        "hostile:qdcount-2",
+        "hostile:opcode-other",
+        "hostile:short",
+        "svc:slow",
+        "svc:fail",
+        "svc:multi",
+        "svc:multi-transaction",
+        "svc:silent",
+        "hostile:many-questions",
+        "hostile:oversized",
+        "hostile:two-opt",
+        "hostile:reached-service",
+        "hostile:answered-with-error",
+        "hostile:silence",
+        "tcp:big-response",
+        "tcp:service-slower-than-idle-timeout",
+        "tcp:more-responses-than-queue",
+        "tcp:answered-by-middleware",
+        "udp:answered-by-middleware",
+        "udp:edns-size:<512",
+        "udp:edns-size:512",
+        "udp:edns-size:>4096",
+    ] {
+        if c.get(k).copied().unwrap_or(0) < 10 {
+            return Err(format!("class {k} starved ({} cases)", c.get(k).copied().unwrap_or(0)));
+        }
+    }
+    Ok(())
+}
 
 pub fn prop() -> Option<Prop> {
-    None
+    Some(Prop {
+        id: "C16",
+        rule: "a scenario is non-trivial if at least one response needed truncation, or at least two pipelined requests on one connection completed out of order, or at least one hostile input was followed by a sentinel well-formed request (distinct by the decoded scenario)",
+        assumptions: &[
+            "mock sockets (recording AsyncDgramSock, tokio::io::duplex behind a mock AsyncAccept), current-thread tokio runtime with paused clock: no kernel buffers, no real TCP segmentation, no multi-threaded scheduling",
+            "liveness is bounded: a response counts as missing if it has not arrived 2 s of virtual time after the slowest service plan of the scenario finished",
+            "the harness service is the only service; responses it builds are valid messages (checked) made of A/TXT/NULL/private-type records without name compression",
+            "configured UDP limit inside the documented range 512..=4096 or None; max_queued_responses >= 1 (0 makes tokio's mpsc::channel panic although the documentation allows it; configuration is outside the statement)",
+            "well-formedness of outgoing messages is judged by the independent walker refimpl::wire",
+        ],
+        subchecks: vec![
+            SubCheck::new("dgram", run_dgram, 24_000, 500_000, 1200),
+            SubCheck::new("stream", run_stream, 16_000, 300_000, 1500),
+            SubCheck::new("dgram_raw", run_dgram_raw, 20_000, 500_000, 1300),
+        ],
+        health: Some(health),
+        extra: None,
+    })
+}
+
+#[cfg(test)]
+mod tests {
+    use super::*;
+
+    /// Documents known finding C16-F1 in its "pipelined burst" form: three
+    /// instantly answered requests written back to back on a connection
+    /// whose response queue holds one entry.
+    #[test]
+    fn burst_larger_than_queue_loses_responses() {
+        // one write carrying three framed requests
+        let mut frame = vec![];
+        for i in 0..3u16 {
+            let m = sentinel(0x0101 + i, false).bytes();
+            frame.extend_from_slice(&(m.len() as u16).to_be_bytes());
+            frame.extend_from_slice(&m);
+        }
+        let items = vec![TItem { gap_ms: 0, splits: vec![], chunk_gap_ms: 0, what: TWhat::Hostile { frame, id: None, tags: vec!["burst"], doomed: false } }];
+        let case = TcpCase { cookies: false, idle_ms: 30_000, max_queued: 1, cap: 65536, conns: vec![Conn { start_ms: 0, addr: SocketAddr::from(([198, 51, 100, 1], 20000)), items }] };
+        let obs = run_tcp(&case);
+        let (frames, rest) = split_frames(&obs.conns[0].bytes);
+        eprintln!("service calls: {}, responses on the wire: {}, rest {}", obs.calls.len(), frames.len(), rest.len());
+        assert_eq!(obs.calls.len(), 3);
+        assert!(frames.len() < 3, "finding C16-F1 no longer reproduces in burst form");
+    }
 }
